@@ -37,6 +37,52 @@ def match_known(pid, case, out, msg, known):
     return None
 
 
+def evaluate(prop, cases, use_coq):
+    """runs cases on the implementation, the python-side oracle and (when the development builds)
+    the Coq verdict function.  Verdict codes: 0 agree & holds, 1 model and implementation
+    disagree, 2 property predicate (evaluated in Coq on the implementation's output) fails,
+    3 outside the model's domain, 4 agree up to an exact tie of the measure."""
+    outs = C.pmap(prop.run_impl, cases)
+    skipped = sum(1 for o in outs if isinstance(o, dict) and "skip" in o)
+    pairs = [(c, o) for c, o in zip(cases, outs) if not (isinstance(o, dict) and "skip" in o)]
+    cases, outs = [c for c, _ in pairs], [o for _, o in pairs]
+    harness_errors = [(c, o) for c, o in pairs if isinstance(o, dict) and "harness_error" in o]
+    good = [(c, o) for c, o in pairs if not (isinstance(o, dict) and "harness_error" in o)]
+    oracle_fail = []
+    for c, o in good:
+        ok, msg = prop.oracle(c, o)
+        if not ok:
+            oracle_fail.append((c, o, msg))
+    codes, coq_err = None, None
+    if use_coq and good:
+        try:
+            shards = prop.coq_shards([c for c, _ in good], [o for _, o in good])
+            res = C.coq_eval(shards, prop.pid)
+            codes = [x for r in res for x in r]
+            if len(codes) != len(good):
+                coq_err = f"expected {len(good)} verdict codes, got {len(codes)}"
+                codes = None
+        except C.CoqEvalError as e:
+            coq_err = str(e)[:3000]
+        except ValueError as e:
+            coq_err = f"case encoding error: {e}"
+    disagree, out_of_domain, ties = [], 0, 0
+    if codes is not None:
+        for (c, o), code in zip(good, codes):
+            if code == 1:
+                disagree.append((c, o))
+            elif code == 3:
+                out_of_domain += 1
+            elif code == 4:
+                ties += 1
+            elif code == 2 and not any(c is cc for cc, _, _ in oracle_fail):
+                oracle_fail.append((c, o, "property predicate evaluated in Coq fails on the "
+                                          "implementation's output"))
+    return dict(cases=cases, outs=outs, good=good, codes=codes, skipped=skipped,
+                harness_errors=harness_errors, oracle_fail=oracle_fail, coq_err=coq_err,
+                disagree=disagree, out_of_domain=out_of_domain, ties=ties)
+
+
 def main(argv):
     if len(argv) < 2:
         print("usage: check <ID> [quick|thorough] | check <ID> --replay <file>")
@@ -69,46 +115,11 @@ def main(argv):
 
     # ---- 2./3. correspondence + oracle ----------------------------------------------------
     cases = prop.corpus() + prop.generate(rng, tier)
-    outs = C.pmap(prop.run_impl, cases)
-    print(f"[{pid}] implementation ran on {len(cases)} cases ({time.time()-t0:.0f}s)", flush=True)
-    skipped = sum(1 for o in outs if isinstance(o, dict) and "skip" in o)
-    pairs = [(c, o) for c, o in zip(cases, outs) if not (isinstance(o, dict) and "skip" in o)]
-    cases, outs = [c for c, _ in pairs], [o for _, o in pairs]
-    harness_errors = [(c, o) for c, o in zip(cases, outs) if isinstance(o, dict) and "harness_error" in o]
-    oracle_fail = []
-    for c, o in zip(cases, outs):
-        if isinstance(o, dict) and "harness_error" in o:
-            continue
-        ok, msg = prop.oracle(c, o)
-        if not ok:
-            oracle_fail.append((c, o, msg))
-
-    codes = None
-    coq_err = None
-    if ok_build:
-        good = [(c, o) for c, o in zip(cases, outs) if not (isinstance(o, dict) and "harness_error" in o)]
-        try:
-            shards = prop.coq_shards([c for c, _ in good], [o for _, o in good])
-            res = C.coq_eval(shards, pid)
-            codes = [x for r in res for x in r]
-            if len(codes) != len(good):
-                coq_err = f"expected {len(good)} verdict codes, got {len(codes)}"
-                codes = None
-        except C.CoqEvalError as e:
-            coq_err = str(e)[:3000]
-        except ValueError as e:
-            coq_err = f"case encoding error: {e}"
-    print(f"[{pid}] model evaluated ({time.time()-t0:.0f}s)", flush=True)
-    disagree = []
-    out_of_domain = 0
-    if codes is not None:
-        for (c, o), code in zip(good, codes):
-            if code == 1:
-                disagree.append((c, o))
-            elif code == 3:
-                out_of_domain += 1
-            elif code == 2 and not any(c is cc for cc, _, _ in oracle_fail):
-                oracle_fail.append((c, o, "property predicate evaluated in Coq fails on the implementation's output"))
+    ev = evaluate(prop, cases, ok_build)
+    cases, outs, good, codes = ev["cases"], ev["outs"], ev["good"], ev["codes"]
+    skipped, harness_errors, oracle_fail = ev["skipped"], ev["harness_errors"], ev["oracle_fail"]
+    coq_err, disagree, out_of_domain, ties = ev["coq_err"], ev["disagree"], ev["out_of_domain"], ev["ties"]
+    print(f"[{pid}] {len(cases)} cases run on implementation and model ({time.time()-t0:.0f}s)", flush=True)
 
     # ---- 4. verdict -------------------------------------------------------------------------
     known_hits = {}
@@ -152,13 +163,10 @@ def main(argv):
         neighbours = [c for c, _ in disagree[:20]]
         for rnd in range(budget):
             extra = prop.search_cases(rng, neighbours, rnd)
-            eouts = C.pmap(prop.run_impl, extra)
+            ev2 = evaluate(prop, extra, ok_build)
             searched += len(extra)
-            for c, o in zip(extra, eouts):
-                if isinstance(o, dict) and "harness_error" in o:
-                    continue
-                ok, msg = prop.oracle(c, o)
-                if not ok and match_known(pid, c, o, msg, known) is None:
+            for c, o, msg in ev2["oracle_fail"]:
+                if match_known(pid, c, o, msg, known) is None:
                     found = (c, o, msg)
                     break
             if found:
@@ -195,6 +203,7 @@ def main(argv):
         "evaluations": len(cases),
         "traces_validated_against_impl": 0 if codes is None else sum(1 for x in codes if x == 0),
         "model_disagreements": len(disagree),
+        "agree_up_to_exact_tie": ties,
         "out_of_model_domain": out_of_domain,
         "skipped_outside_documented_domain": skipped,
         "distinct_nontrivial": len(sigs),
